@@ -496,7 +496,10 @@ Definition w_cfg : val :=
 (* file case: the file the real marshaler wrote for an item name (router = false: cluster manager, true: router) *)
 Inductive rt_case := EncCase (k : enc_case) | DecCase (k : dec_case) | DecHCase (k : dec_case) | StableCase (k : ty * val)
                    | FileCase (router : bool) (name fname : string)
-                   | WfCase (k : ty * val).        (* a real loaded value satisfies the premise of c19_roundtrip_full *)
+                   | WfCase (k : ty * val)         (* a real loaded value satisfies the premise of c19_roundtrip_full *)
+                   (* the real marshaler ran on a directory holding the files `stale` with items named `names` (in order):
+                      `listing` is what ioutil.ReadDir returns afterwards *)
+                   | DirCase (router : bool) (stale names listing : list string).
 
 
 
@@ -534,12 +537,47 @@ Fixpoint has_sep (s : string) : bool :=
 Definition repeat_char (c : Ascii.ascii) (n : nat) : string :=
   (fix go (n : nat) : string := match n with O => EmptyString | S n' => String c (go n') end) n.
 
+(* ------------------------------------------------------------------- the directory of a path-mode container *)
+(* The directory as a finite map file name -> document.  MarshalJSON in path mode: list the directory, write one file per
+   item (a later item with the same file name replaces the earlier file), remove every file that was listed and not
+   written.  UnmarshalJSON in path mode: list the directory (ioutil.ReadDir: sorted by file name), skip files the loader
+   does not accept (extension other than .json), decode every other file as an item, in that order. *)
+Definition dir := list (string * json).
+Definition dput (k : string) (x : json) (d : dir) : dir := (k, x) :: filter (fun kv => negb (String.eqb (fst kv) k)) d.
+Fixpoint dget (k : string) (d : dir) : option json :=
+  match d with [] => None | (k', x) :: d' => if String.eqb k' k then Some x else dget k d' end.
+Fixpoint dins (e : string * json) (l : dir) : dir :=
+  match l with
+  | [] => [e]
+  | e' :: l' => match String.compare (fst e) (fst e') with Gt => e' :: dins e l' | _ => e :: l end
+  end.
+Definition listing (d : dir) : dir := fold_right dins [] d.
+
+Definition path_written {A} (fn : A -> string) (enc : A -> json) (d : dir) (items : list A) : dir :=
+  fold_left (fun d it => dput (fn it) (enc it) d) items d.
+Definition path_write {A} (fn : A -> string) (enc : A -> json) (d : dir) (items : list A) : dir :=
+  filter (fun kv => existsb (String.eqb (fst kv)) (map fn items)) (path_written fn enc d items).
+Definition path_read {A} (accepts : string -> bool) (dec : json -> option A) (d : dir) : option (list A) :=
+  sequence (map (fun kv => dec (snd kv)) (filter (fun kv => accepts (fst kv)) (listing d))).
+
+Definition dir_case_ok (router : bool) (stale names lst : list string) : bool :=
+  let fn := file_name src_max_file_path (if router then src_fname_ops_router else src_fname_ops_cluster) in
+  let d0 := fold_right (fun k d => dput k JNull d) [] stale in
+  let d := path_write fn (fun _ : string => JNull) d0 names in
+  (fix eqb (a b : list string) : bool :=
+     match a, b with
+     | [], [] => true
+     | x :: a', y :: b' => (String.eqb x y && eqb a' b')%bool
+     | _, _ => false
+     end) (map fst (listing d)) lst.
+
 Definition rt_case_ok (k : rt_case) : bool :=
   match k with
   | EncCase e => enc_case_ok e | DecCase d => dec_case_ok d | DecHCase d => dech_case_ok d | StableCase s => stable_case_ok s
   | WfCase (t, v) => (wfb cfg_structs 64 t v && ty_ok cfg_structs t)%bool
   | FileCase router name fname =>
     String.eqb (file_name src_max_file_path (if router then src_fname_ops_router else src_fname_ops_cluster) name) fname
+  | DirCase router stale names lst => dir_case_ok router stale names lst
   end.
 
 Fixpoint mismatches_from {A} (ok : A -> bool) (i : nat) (l : list A) : list nat :=
